@@ -82,13 +82,32 @@ func TestVerif_C16_ForeignMatrix(t *testing.T) {
 				}
 				signKey, verifyKey, otherKey = k, &k.PublicKey, &vkeys.EC(on).PublicKey
 			}
-			s, err := refjose.SignCompact(alg, signKey, payload, r, nil)
+			var s string
+			var err error
+			form := "compact"
+			switch r.Intn(4) {
+			case 0:
+				// JSON serialization with the header split as other producers split it: "alg" only in the unprotected header and no
+				// protected header at all (RFC 7520 4.7), or next to a protected header that carries other members
+				form = "json-alg-unprotected"
+				var prot map[string]interface{}
+				if r.Bool() {
+					prot, form = map[string]interface{}{"typ": "JWT"}, "json-alg-unprotected+protected-typ"
+				}
+				s, err = refjose.SignJSON(alg, signKey, payload, r, prot, map[string]interface{}{"kid": "k-" + keyName}, false)
+			case 1:
+				form = "json-alg-protected+unprotected-kid"
+				s, err = refjose.SignJSON(alg, signKey, payload, r, nil, map[string]interface{}{"kid": "k-" + keyName}, true)
+			default:
+				s, err = refjose.SignCompact(alg, signKey, payload, r, nil)
+			}
 			if err != nil {
 				m.Inconclusive("independent signer failed: " + err.Error())
 				return
 			}
-			m.Classf("jws/%s/%s/len%d", alg, keyName, len(payload))
-			rep := map[string]interface{}{"case": i, "alg": alg, "key": keyName, "payload_len": len(payload), "serialized": clip(s)}
+			m.Count("jws_form_"+form, 1)
+			m.Classf("jws/%s/%s/%s/len%d", alg, keyName, form, len(payload))
+			rep := map[string]interface{}{"case": i, "alg": alg, "key": keyName, "form": form, "payload_len": len(payload), "serialized": clip(s)}
 			m.Guard("jose.foreign.jws", nil, func() {
 				obj, err := jose.ParseSigned(s)
 				if err != nil {
